@@ -460,6 +460,50 @@ theorem defined_per_document_counterexample :
 
 end Rebuild
 
+/-! #### the key of a document is its location RESOLVED against the including document, never the raw string -/
+
+/-- **First wins.**  A document that is registered keeps its place whatever is included later (and, with
+    `include_once`, is never registered again): the registration order is the order of first inclusion. -/
+theorem include_first_wins (docs : List Doc) (n : Nat) (visited todo : List (List String)) :
+    visited <+: includeGo docs n visited todo :=
+  includeGo_prefix docs n visited todo
+
+/-- **Only resolved locations count.**  Two descriptions of the same layout — the same document keys and, for
+    every document, the same list of include locations after resolving each against the directory of the document
+    that WRITES it — register the same documents in the same order, however the locations are spelled (bare
+    relative, `./`, `x/../`, `../`, absolute, file URL) and wherever the raw strings coincide or differ. -/
+theorem include_resolved_keys_only (docs₁ docs₂ : List Doc) (h : AllSame docs₁ docs₂) (n : Nat)
+    (root : List String) :
+    includeGo docs₁ n [] [root] = includeGo docs₂ n [] [root] :=
+  includeGo_sameResolved docs₁ docs₂ h n [] [root]
+
+/-- the layout of seed C09-4: /r/main.xsd includes `common.xsd` and `sub/part.xsd`; /r/sub/part.xsd includes
+    `common.xsd` — the same string, another file -/
+def twinMain : Doc := ⟨["r", "main.xsd"], ["r"], [(false, ["common.xsd"]), (false, ["sub", "part.xsd"])], []⟩
+def twinDocs (partInc : Bool × List String) : List Doc :=
+  [twinMain, ⟨["r", "common.xsd"], ["r"], [], []⟩, ⟨["r", "sub", "part.xsd"], ["r", "sub"], [partInc], []⟩,
+   ⟨["r", "sub", "common.xsd"], ["r", "sub"], [], []⟩]
+
+/-- **Counter-example for raw-string keys** (replayed on the real code: topologies `twin`, directory family):
+    a loader that matches the raw string against the main document's locations never loads /r/sub/common.xsd when
+    the location is spelled `common.xsd`, and loads it when the same file is spelled absolutely; the loader of
+    /repo (`includeGo`) registers the four documents under both spellings. -/
+theorem raw_location_key_counterexample :
+    includeGoRaw (twinDocs (false, ["common.xsd"])) twinMain 9 [] [["r", "main.xsd"]]
+      = [["r", "main.xsd"], ["r", "common.xsd"], ["r", "sub", "part.xsd"]] ∧
+    includeGoRaw (twinDocs (true, ["r", "sub", "common.xsd"])) twinMain 9 [] [["r", "main.xsd"]]
+      = [["r", "main.xsd"], ["r", "common.xsd"], ["r", "sub", "part.xsd"], ["r", "sub", "common.xsd"]] ∧
+    includeGo (twinDocs (false, ["common.xsd"])) 9 [] [["r", "main.xsd"]]
+      = [["r", "main.xsd"], ["r", "common.xsd"], ["r", "sub", "part.xsd"], ["r", "sub", "common.xsd"]] ∧
+    includeGo (twinDocs (true, ["r", "sub", "common.xsd"])) 9 [] [["r", "main.xsd"]]
+      = [["r", "main.xsd"], ["r", "common.xsd"], ["r", "sub", "part.xsd"], ["r", "sub", "common.xsd"]] := by
+  decide
+
+/-- the two spellings of the witness are `AllSame`: `include_resolved_keys_only` applies to them -/
+example : AllSame (twinDocs (false, ["common.xsd"])) (twinDocs (true, ["r", "sub", "common.xsd"])) := by
+  refine .cons ⟨rfl, rfl⟩ (.cons ⟨rfl, rfl⟩ (.cons ⟨rfl, ?_⟩ (.cons ⟨rfl, rfl⟩ .nil)))
+  decide
+
 /-! ### non-vacuity -/
 
 /-- a table with forward references: element root → type R → base B, group G; R declared before B -/
